@@ -1522,8 +1522,8 @@ Definition skey (vars : list nat) (e : sent) : sent :=
 Definition skeep (vars : list nat) (e : sent) : bool :=
   negb (existsb (Nat.eqb (fst e)) vars).
 
-Lemma s_remove_eq : forall vars s,
-  s_remove vars s = mkSR (ssize s - length vars) (map (skey vars) (filter (skeep vars) (sents s))).
+Lemma s_remove0_eq : forall vars s,
+  s_remove0 vars s = mkSR (ssize s - length vars) (map (skey vars) (filter (skeep vars) (sents s))).
 Proof. reflexivity. Qed.
 
 Lemma skey_psi : forall vars k v, skey vars (k, v) = (psi vars k, v).
@@ -1547,19 +1547,19 @@ Proof.
     + exact IH.
 Qed.
 
-Lemma s_remove_abs : forall vars s, s_wf s -> vars_ok vars (ssize s) ->
-  aeq (abs_s (s_remove vars s)) (a_remove vars (abs_s s)).
+Lemma s_remove0_abs : forall vars s, s_wf s -> vars_ok vars (ssize s) ->
+  aeq (abs_s (s_remove0 vars s)) (a_remove vars (abs_s s)).
 Proof.
   intros vars s _ Hok. apply vars_ok_inv in Hok. destruct Hok as [Hi _].
-  rewrite s_remove_eq. unfold aeq, abs_s. cbn [asize acoef ssize sents]. split.
+  rewrite s_remove0_eq. unfold aeq, abs_s. cbn [asize acoef ssize sents]. split.
   - rewrite a_remove_size. reflexivity.
   - intros j. rewrite a_remove_coef. cbn [acoef]. apply lookup_remove. exact Hi.
 Qed.
 
-Lemma s_remove_wf : forall vars s, s_wf s -> vars_ok vars (ssize s) -> s_wf (s_remove vars s).
+Lemma s_remove0_wf : forall vars s, s_wf s -> vars_ok vars (ssize s) -> s_wf (s_remove0 vars s).
 Proof.
   intros vars s [Hs Hb] Hok. apply vars_ok_inv in Hok. destruct Hok as [Hi Hv].
-  rewrite s_remove_eq. unfold s_wf. cbn [ssize sents]. split.
+  rewrite s_remove0_eq. unfold s_wf. cbn [ssize sents]. split.
   - clear Hb. unfold s_sorted in *. induction Hs as [|[k v] r Hr IH Hf].
     + constructor.
     + cbn [filter]. unfold skeep at 1. cbn [fst].
@@ -1580,13 +1580,43 @@ Proof.
     unfold psi at 2 in Hlt. rewrite (cnt_all vars (ssize s) Hv) in Hlt. exact Hlt.
 Qed.
 
-Lemma s_remove_nz : forall vars s, s_nz s -> s_nz (s_remove vars s).
+Lemma s_remove0_nz : forall vars s, s_nz s -> s_nz (s_remove0 vars s).
 Proof.
-  intros vars s H. rewrite s_remove_eq. unfold s_nz in *. cbn [sents].
+  intros vars s H. rewrite s_remove0_eq. unfold s_nz in *. cbn [sents].
   apply Forall_forall. intros b Hin.
   apply in_map_iff in Hin. destruct Hin as [e [<- Hin]].
   apply filter_In in Hin. destruct Hin as [Hin _].
   rewrite Forall_forall in H. unfold skey. cbn [snd]. apply H. exact Hin.
+Qed.
+
+Lemma filter_forall_id : forall (A : Type) (f : A -> bool) (l : list A),
+  Forall (fun x => f x = true) l -> filter f l = l.
+Proof.
+  intros A f l H. induction H as [|x l Hx _ IH]; cbn [filter]; [reflexivity|]. rewrite Hx, IH. reflexivity.
+Qed.
+Lemma forall_filter : forall (A : Type) (P : A -> Prop) (f : A -> bool) (l : list A),
+  Forall P l -> Forall P (filter f l).
+Proof.
+  intros A P f l H. induction H as [|x l Hx _ IH]; cbn [filter]; [constructor|].
+  destruct (f x); [constructor; assumption|assumption].
+Qed.
+Lemma s_remove_s_remove0 : forall vars s, s_wf s -> vars_ok vars (ssize s) ->
+  s_remove vars s = s_remove0 vars s.
+Proof.
+  intros vars s Hwf Hok. unfold s_remove. cbv zeta.
+  destruct (s_remove0_wf vars s Hwf Hok) as [_ Hb].
+  rewrite filter_forall_id.
+  - destruct (s_remove0 vars s); reflexivity.
+  - eapply Forall_impl; [|exact Hb]. intros a Ha. apply Nat.ltb_lt. exact Ha.
+Qed.
+Lemma s_remove_abs : forall vars s, s_wf s -> vars_ok vars (ssize s) ->
+  aeq (abs_s (s_remove vars s)) (a_remove vars (abs_s s)).
+Proof. intros vars s Hwf Hok. rewrite s_remove_s_remove0 by assumption. apply s_remove0_abs; assumption. Qed.
+Lemma s_remove_wf : forall vars s, s_wf s -> vars_ok vars (ssize s) -> s_wf (s_remove vars s).
+Proof. intros vars s Hwf Hok. rewrite s_remove_s_remove0 by assumption. apply s_remove0_wf; assumption. Qed.
+Lemma s_remove_nz : forall vars s, s_nz s -> s_nz (s_remove vars s).
+Proof.
+  intros vars s H. unfold s_remove, s_nz. cbv zeta. cbn [sents]. apply forall_filter. apply s_remove0_nz. exact H.
 Qed.
 
 (* ---------- dense ---------- *)
